@@ -1553,7 +1553,9 @@ class BaseSpaceImpl(*_base_space_impl_base):
     def on_delete(self):
         self.del_all_itemspaces()
         for cells in self.cells.values():
-            cells.clear_all_values(clear_input=True)
+            # Clear the values and, for uncached cells, the object node
+            # with the values computed through it
+            self.model.clear_obj(cells)
             cells.on_delete()
         super().on_delete()
 
@@ -1953,6 +1955,14 @@ class UserSpaceImpl(*_user_space_impl_base):
         self.change_dynsub_refs(name)
         return newref
 
+    def _clear_uncached_cells(self):
+        """Clear the values computed through uncached cells in the tree"""
+        for cells in self.cells.values():
+            if not cells.is_cached:
+                self.model.clear_obj(cells)
+        for space in self.named_spaces.values():
+            space._clear_uncached_cells()
+
     def on_create_ref(self, name, value, is_derived, refmode):
         ref = ReferenceImpl(self, name, value,
                             container=self._own_refs,
@@ -1969,6 +1979,7 @@ class UserSpaceImpl(*_user_space_impl_base):
     def on_rename(self, name):
         self.model.clear_obj(self)
         self.clear_all_cells(clear_input=True, recursive=True, del_items=True)
+        self._clear_uncached_cells()
         old_name = self.name
         self.name = name
         self.parent.named_spaces.rename_item(old_name, name)
